@@ -17,3 +17,22 @@ fn k_next_version_rule() {
     let accepted = !(nv <= old);
     assert!(accepted == (rc || ver == -1 || ver >= old));
 }
+
+/// C18: the retry rule of the s3_patition strategy (generic kernel, instantiated with a counting closure over u8) and the fold that
+/// keeps the first error: at most count + 1 attempts, the first success wins and stops the retries, otherwise the last error comes back
+#[kani::proof]
+#[kani::unwind(6)]
+fn k_retry_rule() {
+    use crate::storage::s3_partition::{error_if_error, retry};
+    let count: i32 = kani::any(); kani::assume(count >= 0 && count <= 3);
+    let ok_at: u8 = kani::any();          // 0-based index of the attempt that succeeds; beyond count: never
+    let mut attempts: u8 = 0;
+    let r: Result<u8, u8> = retry(|| { let a = attempts; attempts += 1; if a == ok_at { Ok(a) } else { Err(a) } }, count);
+    assert!((attempts as i32) <= count + 1);
+    if (ok_at as i32) <= count { assert!(r == Ok(ok_at)); assert!(attempts == ok_at + 1); }
+    else { assert!(r == Err(count as u8)); assert!((attempts as i32) == count + 1); }
+    let a: Result<(), u8> = if kani::any() { Ok(()) } else { Err(kani::any()) };
+    let b: Result<(), u8> = if kani::any() { Ok(()) } else { Err(kani::any()) };
+    let e = error_if_error(a, b);
+    match (a, b) { (Err(x), _) => assert!(e == Err(x)), (Ok(()), y) => assert!(e == y) }
+}
